@@ -88,11 +88,26 @@ def stakeDelegate (e : Env) (s : State) (g0 : Dec) (del : Addr) (val : ValAddr) 
       if v.shares ≠ 0 ∧ v.tokens = 0 then (g, throw "invalid exchange rate") else
       let v' := { v with tokens := v.tokens + amt, shares := v.shares + issued }
       let d' : DelegationV := { del := del, val := val, shares := (existing.map (·.shares)).getD 0 + issued }
-      let s := { s with staking := { validators := setValidator s.staking.validators v',
-                                      delegations := setDelegation e s.staking.delegations d' } }
+      let s := { s with staking := { s.staking with validators := setValidator s.staking.validators v',
+                                                    delegations := setDelegation e s.staking.delegations d' } }
       match verifySuper e s g val (some del) false with
       | .error m => (g, throw m)
       | .ok (s', g') => (g', pure s')
+
+/-- x/staking `MaxEntries` (default parameter): unbonding entries a (delegator, validator) pair may have pending -/
+def MaxUnbondingEntries : Nat := 7
+
+def StakingView.unbondingEntries (v : StakingView) (del : Addr) (val : ValAddr) : Nat :=
+  ((v.unbonding.find? (fun u => u.del = del ∧ u.val = val)).map (·.entries)).getD 0
+
+/-- one more pending entry for the pair; the list is kept in (delegator, validator) order -/
+def addUnbondingEntry (l : List UnbondingV) (del : Addr) (val : ValAddr) : List UnbondingV :=
+  match l with
+  | [] => [{ del := del, val := val, entries := 1 }]
+  | u :: t =>
+    if u.del = del ∧ u.val = val then { u with entries := u.entries + 1 } :: t
+    else if del < u.del ∨ (del = u.del ∧ val < u.val) then { del := del, val := val, entries := 1 } :: u :: t
+    else u :: addUnbondingEntry t del val
 
 /-- `msgServer.Undelegate` -/
 def stakeUndelegate (e : Env) (s : State) (g0 : Dec) (del : Addr) (val : ValAddr) (amt : Int) : Dec × TxM State :=
@@ -103,6 +118,8 @@ def stakeUndelegate (e : Env) (s : State) (g0 : Dec) (del : Addr) (val : ValAddr
     if v.tokens = 0 then (g0, throw "insufficient shares") else
     let shares0 := Dec.quoInt (Dec.mulInt v.shares amt) v.tokens
     if shares0 > d.shares then (g0, throw "invalid shares amount") else
+    -- keeper.Undelegate: HasMaxUnbondingDelegationEntries is checked before Unbond (and its hooks) run
+    if s.staking.unbondingEntries del val ≥ MaxUnbondingEntries then (g0, throw "too many unbonding delegation entries") else
     let shares := shares0
     -- Unbond: BeforeDelegationSharesModified
     let g : Dec := d.shares
@@ -126,7 +143,7 @@ def stakeUndelegate (e : Env) (s : State) (g0 : Dec) (del : Addr) (val : ValAddr
       if v.status = 3 then
         match s.send e.modBonded e.modNotBonded issuedTokens with
         | .error m => (g', throw m)
-        | .ok s' => (g', pure s')
+        | .ok s' => (g', pure { s' with staking := { s'.staking with unbonding := addUnbondingEntry s'.staking.unbonding del val } })
       else (g', pure s)
 
 end SaoVerif
